@@ -6,5 +6,10 @@ CONSTANTS
   FFE = 99
   MCEpochs = {0, 1, 2, 3, 4}
   MCQueryEpochs = {0, 1, 2, 3, 4, 5}
-INVARIANTS OnlyConfigured ExactlyActive
+  MCAtomicEpochs = {1, 2, 3}
+  MCOverlapKinds = {}
+  MCOverlapEpochs = {}
+  MCSeen = 2
+INVARIANTS OnlyConfigured ExactlyActive NoStrangers RightIndex ByIndexAgrees
+CONSTRAINT MCBound
 PROPERTY NeverWiped
